@@ -56,7 +56,8 @@ func build(t *rapid.T, verb, kind string, id uint32, have map[string]map[uint32]
 	}
 	switch kind {
 	case "FAR":
-		r.Action, r.HasAction = rapid.SampledFrom([]uint16{1, 2}).Draw(t, "action"), true
+		// DROP, FORW, BUFF, BUFF|NOCP: an Update FAR leaving BUFF makes the driver look up the FAR's PDRs and their QERs first
+		r.Action, r.HasAction = rapid.SampledFrom([]uint16{1, 2, 2, 4, 4, 0x0c}).Draw(t, "action"), true
 		if verb == "create" || rapid.Bool().Draw(t, "ohc") {
 			r.OHC = &stack.OHC{TEID: rapid.Uint32().Draw(t, "teid"), Peer: "10.0.0.9"}
 		}
@@ -72,6 +73,11 @@ func build(t *rapid.T, verb, kind string, id uint32, have map[string]map[uint32]
 			r.SrcIf, r.UEIP = 1, "10.60.0.1"
 		}
 		r.FAR = uint32(rapid.IntRange(1, 3).Draw(t, "far"))
+		for fid := uint32(1); fid <= 3; fid++ {
+			if have["FAR"][fid] && rapid.Bool().Draw(t, "existing_far") {
+				r.FAR = fid
+			}
+		}
 		for q := uint32(1); q <= 3; q++ {
 			if have["QER"][q] && rapid.IntRange(0, 2).Draw(t, "qer") == 0 {
 				r.QERs = append(r.QERs, q)
